@@ -18,6 +18,8 @@ dirty = subprocess.run("git -C /repo status --porcelain --untracked-files=no", s
 if dirty:
     sys.exit("/repo has uncommitted changes:\n" + dirty)
 seeds = sorted(p for p in (V / "seeded").iterdir() if p.is_dir() and (not args or p.name in args))
+resf = V / "seeded" / "RESULTS.json"
+results = json.loads(resf.read_text()) if resf.exists() else {}
 for s in seeds:
     meta = json.loads((s / "meta.json").read_text())
     pids = meta.get("checks") or [meta["property"]]
@@ -31,5 +33,18 @@ for s in seeds:
             r = subprocess.run(["./check", pid, "--tier", tier], cwd=V, capture_output=True, text=True, timeout=3600)
             lines = [l for l in r.stdout.splitlines() if l.startswith("VIOLATION")]
             print("%-34s %s rc=%d %s" % (s.name, pid, r.returncode, lines[0] if lines else "(no VIOLATION line)"), flush=True)
+            kind, shown = "", ""
+            if lines:
+                import re
+                m = re.search(r"replay=(\S+)", lines[0])
+                if m and Path(m.group(1)).exists():
+                    try:
+                        rp = json.loads(Path(m.group(1)).read_text())
+                        kind = str(rp.get("kind", ""))
+                        shown = "; ".join(rp.get("readable", [])[1:-1])[:160] if rp.get("readable") else str(rp.get("detail", rp.get("what", rp.get("checker", ""))))[:160]
+                    except Exception:
+                        pass
+            results.setdefault(s.name, {})[pid + ":" + tier] = dict(rc=r.returncode, no_input=("no-failing-input-found" in (lines[0] if lines else "")), kind=kind, shown=shown)
+            resf.write_text(json.dumps(results, indent=1, sort_keys=True))
     finally:
         subprocess.run("git -C /repo checkout -- . && git -C /repo clean -fdq -- memdb server resp util raftexample", shell=True)
